@@ -132,6 +132,10 @@ func VersionedFromResource(resource fhir.CanonicalResource) (*dtpb.Canonical, er
 func IdentityFromReference(c *dtpb.Canonical) (*resource.CanonicalIdentity, error) {
 	value := c.GetValue()
 	match := canonicalRegExp.FindStringSubmatch(value)
+	if match == nil {
+		// no url part ("", "#fragment", "|version")
+		return nil, ErrNoCanonicalURL
+	}
 	result := make(map[string]string)
 	for i, name := range canonicalRegExp.SubexpNames() {
 		if i != 0 && name != "" {
